@@ -239,6 +239,22 @@ def check_case(ctx, case):
         for v, g, a in zip(vals, o.value, allowed):
             if int(g) not in a:
                 ctx.violation("get_mag_idx:" + (classify(int(g), a) or "?"), {"v": v, "got": int(g), "admissible": sorted(a)}, minimal(case, v))
+    # the same catalog object, asked again after the region it is bound to got another magnitude grid (a second forecast built on
+    # that region re-binds region.magnitudes): the indices belong to the grid the region has now
+    if n >= 2 and o.ok:
+        shifted = numpy.array([float(b) for b in bins[1:]])       # the grid without its first bin
+        GriddedForecast(data=numpy.zeros((1, n - 1)), region=region, magnitudes=shifted)
+        o_again = call(cat.get_mag_idx)
+        if not o_again.ok:
+            ctx.unexpected(o_again, "get_mag_idx:after_rebinding_the_region_magnitudes")
+        else:
+            ctx.count("get_mag_idx_after_rebinding")
+            for v, g0, g1, a in zip(vals, o.value, o_again.value, allowed):
+                if len(a) == 1 and int(g0) in a and int(g0) >= 1 and int(g1) != int(g0) - 1:
+                    ctx.violation("get_mag_idx:stale_after_region_magnitudes_changed", {"v": v, "first": int(g0), "second": int(g1), "want": int(g0) - 1}, minimal(case, v))
+                    break
+        region.magnitudes = bins
+        region.num_mag_bins = len(bins)
     fore = GriddedForecast(data=numpy.zeros((1, n)), region=region, magnitudes=bins)
     # (a) the whole probe list: rejected iff some value is out of range
     o = call(fore.get_magnitude_index, numpy.array(vals))
